@@ -27,6 +27,8 @@ type Term struct {
 	// structured view for select/store simplification
 	op   string
 	args []*Term
+	// bound variables (name, sort) of a quantifier built by Forall
+	qvars [][2]string
 }
 
 func (t *Term) String() string { return t.s }
@@ -694,7 +696,7 @@ func Forall(vars [][2]string, body *Term, patterns ...[]*Term) *Term {
 		b.WriteString(body.s)
 	}
 	b.WriteString(")")
-	return &Term{s: b.String(), sort: SBool, op: "forall", args: []*Term{body}}
+	return &Term{s: b.String(), sort: SBool, op: "forall", args: []*Term{body}, qvars: vars}
 }
 
 // ExistsP is Exists with explicit triggers (used when the formula ends up negated).
@@ -723,7 +725,7 @@ func ExistsP(vars [][2]string, body *Term, patterns ...[]*Term) *Term {
 		b.WriteString(")")
 	}
 	b.WriteString("))")
-	return &Term{s: b.String(), sort: SBool, op: "exists", args: []*Term{body}}
+	return &Term{s: b.String(), sort: SBool, op: "exists", args: []*Term{body}, qvars: vars}
 }
 
 func Exists(vars [][2]string, body *Term) *Term {
@@ -738,7 +740,7 @@ func Exists(vars [][2]string, body *Term) *Term {
 	b.WriteString(") ")
 	b.WriteString(body.s)
 	b.WriteString(")")
-	return &Term{s: b.String(), sort: SBool, op: "exists"}
+	return &Term{s: b.String(), sort: SBool, op: "exists", args: []*Term{body}, qvars: vars}
 }
 
 // pow2 returns 2^n as big.Int
